@@ -13,7 +13,7 @@ def _c07_out_kind(o):
 
 
 PROPS["C07"] = dict(
-    level_text="Theorems (Props/C07.lean; invariants in Proofs/Pager.lean) about a transition system of the pager - producer loop with its program counter, capacity-1 channel, consumer with current page and row cursor, first page fetched on the caller's task - prove for EVERY server script (any page sizes incl. empty pages and an empty last page, any paging-state bytes), EVERY sequence of per-attempt outcomes (success, retried failure, final failure, ignored error) and EVERY interleaving of producer steps, polls and the drop of the pager: rows_exact_prefix / rows_exact (the rows handed out are always a prefix of the pages' rows in server order; if the stream ended with None without an error and no IgnoreWriteError decision was taken it handed out all of them - accounting invariant delivered ++ current page ++ channel ++ page held by send ++ pages not yet fetched ++ pages given up = all rows); paging_state_chain / paging_requests_in_order (every request for page k, first attempt or retry, before or after a drop, carries the state returned with page k-1, none for k=0; requests are in page order); error_after_earlier_rows / first_page_error / error_at_most_once / nothing_after_end_or_error (a non-retried failure on page k surfaces once, after exactly the rows of pages < k, then the stream ends; a first-page failure is the constructor's error); terminates_poll / bounded_work / no_deadlock_reachable / terminates / eager_consumer_gets_everything (no pending page and producer done -> None; a measure strictly decreases on every effective step; no deadlock; under round-robin scheduling the stream ends within measure(init) rounds); prefetch_bound / early_drop_stops_producer (at most 2 pages prefetched; after a drop nothing is delivered or enqueued and only the page request in flight is finished); conn_rows_exact (the single-connection pager needs no side condition); ignore_truncates_silently (an IgnoreWriteError decision ends the stream without error - why rows_exact excludes it). The model is tied to pager.rs by a differential run of the REAL pagers against a scripted CQL server over loopback TCP: Connection::execute_iter (SingleConnectionPagingExecutor) and Session::execute_iter (PagingExecutor, default retry policy, one-node mock cluster), with an oracle computed from the script and the frames the server received.",
+    level_text="Theorems (Props/C07.lean; invariants in Proofs/Pager.lean) about a transition system of the pager - producer loop with its program counter, capacity-1 channel, consumer with current page and row cursor, first page fetched on the caller's task - prove for EVERY server script (any page sizes incl. empty pages and an empty last page, any paging-state bytes), EVERY sequence of per-attempt outcomes (success, retried failure, final failure, ignored error) and EVERY interleaving of producer steps, polls and the drop of the pager: rows_exact_prefix / rows_exact (the rows handed out are always a prefix of the pages' rows in server order; if the stream ended with None without an error and no IgnoreWriteError decision was taken it handed out all of them - accounting invariant delivered ++ current page ++ channel ++ page held by send ++ pages not yet fetched ++ pages given up = all rows); paging_state_chain / paging_requests_in_order / state_keyed_server_sees_script (every request for page k, first attempt or retry, before or after a drop, carries the state returned with page k-1, none for k=0; requests are in page order; a server keyed by the presented state sees exactly the positional script); error_after_earlier_rows / first_page_error / error_at_most_once / nothing_after_end_or_error (a non-retried failure on page k surfaces once, after exactly the rows of pages < k, then the stream ends; a first-page failure is the constructor's error); terminates_poll / bounded_work / no_deadlock_reachable / terminates / eager_consumer_gets_everything (no pending page and producer done -> None; a measure strictly decreases on every effective step; no deadlock; under round-robin scheduling the stream ends within measure(init) rounds); prefetch_bound / early_drop_stops_producer (at most 2 pages prefetched; after a drop nothing is delivered or enqueued and only the page request in flight is finished); conn_rows_exact (the single-connection pager needs no side condition); ignore_truncates_silently (an IgnoreWriteError decision ends the stream without error - why rows_exact excludes it). The model is tied to pager.rs by a differential run of the REAL pagers against a scripted CQL server over loopback TCP: Connection::execute_iter (SingleConnectionPagingExecutor) and Session::execute_iter (PagingExecutor, default retry policy, one-node mock cluster), with an oracle computed from the script and the frames the server received.",
     level_note="Trusted: Lean kernel + {propext, Classical.choice, Quot.sound}; hand-written model Model/Pager.lean (tie = differential harness: real QueryPager/TypedRowStream over a real Connection / Session against harness/src/mocknode.rs on a current-thread tokio runtime); tokio mpsc(1) semantics (one buffered item, send waits, receiver drop fails send and discards the buffer, sender drop lets the receiver drain then see None) and task scheduling are represented by arbitrary interleaving of atomic steps - real wake-ups are exercised only by the differential run; the retry policy is represented by per-attempt outcomes (C06 owns its model); drop cases are checked as membership (request log between the laziest and the most eager producer). Only prepared statements are driven (Session::query_iter's unprepared pager shares PagingExecutor::query_remaining_pages but its page_query closure is not exercised); node switches need a multi-node mock cluster and are not in the differential run (the chain theorem covers them: the state does not depend on the target).",
     lean_modules=["ScyllaVerif.Props.C07"],
     rule="case = (pager kind pg|sess, skip-metadata flag, consumer eager|slow|drop after k rows, page script: rows per page, paging state returned, faults injected before the page is served); distinct case lines whose implementation output shows at least two page requests count as non-trivial",
